@@ -331,6 +331,7 @@ def generic_replay(mod, path):
         return 2
     name = org["binary"]
     kw = dict(getattr(mod, "HARNESSES", {}).get(name, {}))
+    kw.pop("cfgs", None)
     binary = build.harness(org["cfg"], name, **kw)
     args = []
     it = iter(org["args"])
